@@ -744,5 +744,108 @@ theorem lookup_map_inj (ρ : String → String) (g : String → Term) :
       exact lookup_map_inj ρ g l s hs
         (fun x hx y hy => hinj x (by simp [hx]) y (by simp [hy]))
 
+/-! ## sharing: substitution maps the sub-terms, it does not copy them -/
+
+theorem inlineList_eq_map : ∀ (ts : List Term), inlineList ts = ts.map inline
+  | [] => rfl
+  | t :: ts => by simp [inlineList, inlineList_eq_map ts]
+
+theorem substList_eq_map (σ : String → Term) : ∀ (ts : List Term),
+    substList σ ts = ts.map (substPlaceholders σ)
+  | [] => rfl
+  | t :: ts => by simp [substList, substList_eq_map σ ts]
+
+theorem frameSub_lookup : ∀ (bs : Binds) (p : String) (s : Term),
+    s ∈ frameSub ((lookup bs p).getD .error) → s = .error ∨ s ∈ frameSubBinds bs
+  | [], _, s, h => by simp [lookup, frameSub] at h; exact Or.inl h
+  | (m, t) :: bs, p, s, h => by
+    rw [lookup_cons] at h
+    simp only [frameSubBinds, List.mem_append]
+    split at h
+    · exact Or.inr (Or.inl h)
+    · rcases frameSub_lookup bs p s h with h | h
+      · exact Or.inl h
+      · exact Or.inr (Or.inr h)
+
+mutual
+/-- every sub-term of `t[σ]` is the image of a sub-term of `t`, or a sub-term of a substituted term -/
+theorem frameSub_subst (σ : String → Term) (l' : List Term) : ∀ (t : Term),
+    (∀ n ∈ freePh t, ∀ s ∈ frameSub (σ n), s ∈ l') →
+    ∀ s ∈ frameSub (substPlaceholders σ t), s ∈ (frameSub t).map (substPlaceholders σ) ∨ s ∈ l'
+  | .placeholder n, h, s, hs => Or.inr (h n (by simp [freePh]) s hs)
+  | .error, _, s, hs => by
+    simp only [substPlaceholders, frameSub, List.mem_singleton] at hs
+    subst hs; exact Or.inl (by simp [frameSub, substPlaceholders])
+  | .op f args, h, s, hs => by
+    simp only [substPlaceholders, frameSub, List.mem_cons] at hs
+    rcases hs with rfl | hs
+    · exact Or.inl (List.mem_map.mpr ⟨.op f args, by simp [frameSub], rfl⟩)
+    · rcases frameSubList_subst σ l' args (by simpa [freePh] using h) s hs with h1 | h1
+      · obtain ⟨u, hu, rfl⟩ := List.mem_map.mp h1
+        exact Or.inl (List.mem_map.mpr ⟨u, by simp [frameSub, hu], rfl⟩)
+      · exact Or.inr h1
+  | .result k tg ps rets bs, h, s, hs => by
+    simp only [substPlaceholders, frameSub, List.mem_cons] at hs
+    rcases hs with rfl | hs
+    · exact Or.inl (List.mem_map.mpr ⟨.result k tg ps rets bs, by simp [frameSub], rfl⟩)
+    · rcases frameSubBinds_subst σ l' bs (by simpa [freePh] using h) s hs with h1 | h1
+      · obtain ⟨u, hu, rfl⟩ := List.mem_map.mp h1
+        exact Or.inl (List.mem_map.mpr ⟨u, by simp [frameSub, hu], rfl⟩)
+      · exact Or.inr h1
+theorem frameSubList_subst (σ : String → Term) (l' : List Term) : ∀ (ts : List Term),
+    (∀ n ∈ freePhList ts, ∀ s ∈ frameSub (σ n), s ∈ l') →
+    ∀ s ∈ frameSubList (substList σ ts),
+      s ∈ (frameSubList ts).map (substPlaceholders σ) ∨ s ∈ l'
+  | [], _, s, hs => by simp [substList, frameSubList] at hs
+  | t :: ts, h, s, hs => by
+    simp only [freePhList, List.mem_append] at h
+    simp only [substList, frameSubList, List.mem_append, List.map_append] at hs ⊢
+    rcases hs with hs | hs
+    · rcases frameSub_subst σ l' t (fun n hn => h n (Or.inl hn)) s hs with h1 | h1
+      · exact Or.inl (Or.inl h1)
+      · exact Or.inr h1
+    · rcases frameSubList_subst σ l' ts (fun n hn => h n (Or.inr hn)) s hs with h1 | h1
+      · exact Or.inl (Or.inr h1)
+      · exact Or.inr h1
+theorem frameSubBinds_subst (σ : String → Term) (l' : List Term) : ∀ (bs : Binds),
+    (∀ n ∈ freePhBinds bs, ∀ s ∈ frameSub (σ n), s ∈ l') →
+    ∀ s ∈ frameSubBinds (substBinds σ bs),
+      s ∈ (frameSubBinds bs).map (substPlaceholders σ) ∨ s ∈ l'
+  | [], _, s, hs => by simp [substBinds, frameSubBinds] at hs
+  | (q, t) :: bs, h, s, hs => by
+    simp only [freePhBinds, List.mem_append] at h
+    simp only [substBinds, frameSubBinds, List.mem_append, List.map_append] at hs ⊢
+    rcases hs with hs | hs
+    · rcases frameSub_subst σ l' t (fun n hn => h n (Or.inl hn)) s hs with h1 | h1
+      · exact Or.inl (Or.inl h1)
+      · exact Or.inr h1
+    · rcases frameSubBinds_subst σ l' bs (fun n hn => h n (Or.inr hn)) s hs with h1 | h1
+      · exact Or.inl (Or.inr h1)
+      · exact Or.inr h1
+end
+
+/-- substituting the bindings of a call into several terms at once: the results fit into the
+    nodes of the terms together + the nodes of the bindings together + 1 (`error`) -/
+theorem subst_dag_size (ps : List String) (bs : Binds) (bodies : List Term) (n m : Nat)
+    (hb : DagSizeLe bodies n) (hbs : DagSizeLeBinds bs m) :
+    DagSizeLe (substList (callSubst ps bs) bodies) (n + m + 1) := by
+  obtain ⟨lb, hlb, hcb⟩ := hb
+  obtain ⟨lbs, hlbs, hcbs⟩ := hbs
+  refine ⟨lb.map (substPlaceholders (callSubst ps bs)) ++ (.error :: lbs), ?_, ?_⟩
+  · simp only [List.length_append, List.length_map, List.length_cons]; omega
+  · intro s hs
+    have hσ : ∀ n' ∈ freePhList bodies, ∀ s ∈ frameSub (callSubst ps bs n'), s ∈ Term.error :: lbs := by
+      intro n' _ s hs
+      simp only [callSubst] at hs
+      split at hs
+      · rcases frameSub_lookup bs n' s hs with h | h
+        · simp [h]
+        · exact List.mem_cons_of_mem _ (hcbs s h)
+      · simp only [frameSub, List.mem_singleton] at hs; simp [hs]
+    rcases frameSubList_subst _ _ bodies hσ s hs with h | h
+    · obtain ⟨u, hu, rfl⟩ := List.mem_map.mp h
+      exact List.mem_append_left _ (List.mem_map.mpr ⟨u, hcb u hu, rfl⟩)
+    · exact List.mem_append_right _ h
+
 end CallsM
 end Pt
